@@ -84,6 +84,32 @@ func (w *cmpWriter) write(p []byte) (int, error) {
 	return len(p), nil
 }
 
+// flush: gzip, parallel gzip, zstandard and brotli emit bytes of their own on Flush (a sync marker / an empty block;
+// probed natively), lz4 and bzip2 do not. The length of the stream therefore depends on how often Flush was called.
+func (w *cmpWriter) flush() error {
+	if w.closed {
+		return nil
+	}
+	switch w.log.Format {
+	case "gzip", "pgzip":
+		if !w.header {
+			w.header = true
+			if _, err := w.dst.Write([]byte(w.id)); err != nil {
+				return err
+			}
+		}
+	case "zstd", "brotli":
+		if !w.header {
+			return nil
+		}
+	default:
+		return nil
+	}
+	w.log.Frames++
+	_, err := w.dst.Write([]byte{Byte("compressed", "")})
+	return err
+}
+
 func (w *cmpWriter) close() error {
 	if w.closed {
 		return nil
@@ -196,7 +222,7 @@ func GzipNewWriterLevel(w io.Writer, level int) (*gzip.Writer, error) {
 func GzipWriterWrite(z *gzip.Writer, p []byte) (int, error) { return gzWriters[z].write(p) }
 
 //verif:replace (*compress/gzip.Writer).Flush
-func GzipWriterFlush(z *gzip.Writer) error { return nil }
+func GzipWriterFlush(z *gzip.Writer) error { return gzWriters[z].flush() }
 
 //verif:replace (*compress/gzip.Writer).Close
 func GzipWriterClose(z *gzip.Writer) error { return gzWriters[z].close() }
@@ -245,7 +271,7 @@ func ZstdNewWriter(w io.Writer, opts ...zstd.EOption) (*zstd.Encoder, error) {
 func ZstdEncoderWrite(e *zstd.Encoder, p []byte) (int, error) { return zsWriters[e].write(p) }
 
 //verif:replace (*github.com/klauspost/compress/zstd.Encoder).Flush
-func ZstdEncoderFlush(e *zstd.Encoder) error { return nil }
+func ZstdEncoderFlush(e *zstd.Encoder) error { return zsWriters[e].flush() }
 
 //verif:replace (*github.com/klauspost/compress/zstd.Encoder).Close
 func ZstdEncoderClose(e *zstd.Encoder) error { return zsWriters[e].close() }
@@ -285,7 +311,7 @@ func PgzipNewWriterLevel(w io.Writer, level int) (*pgzip.Writer, error) {
 func PgzipWriterWrite(z *pgzip.Writer, p []byte) (int, error) { return pgWriters[z].write(p) }
 
 //verif:replace (*github.com/klauspost/pgzip.Writer).Flush
-func PgzipWriterFlush(z *pgzip.Writer) error { return nil }
+func PgzipWriterFlush(z *pgzip.Writer) error { return pgWriters[z].flush() }
 
 //verif:replace (*github.com/klauspost/pgzip.Writer).Close
 func PgzipWriterClose(z *pgzip.Writer) error { return pgWriters[z].close() }
@@ -375,7 +401,7 @@ func BrotliNewWriterLevel(w io.Writer, level int) *brotli.Writer {
 func BrotliWriterWrite(z *brotli.Writer, p []byte) (int, error) { return brWriters[z].write(p) }
 
 //verif:replace (*github.com/andybalholm/brotli.Writer).Flush
-func BrotliWriterFlush(z *brotli.Writer) error { return nil }
+func BrotliWriterFlush(z *brotli.Writer) error { return brWriters[z].flush() }
 
 //verif:replace (*github.com/andybalholm/brotli.Writer).Close
 func BrotliWriterClose(z *brotli.Writer) error { return brWriters[z].close() }
